@@ -134,7 +134,10 @@ static NEXT_ID: AtomicU64 = AtomicU64::new(1);
 /// Installs the script for the next run (the previous one is leaked on purpose:
 /// stray threads of an earlier run may still hold a reference).
 pub fn install_script(s: Script) {
+    static KEEP: std::sync::Mutex<Vec<usize>> = std::sync::Mutex::new(Vec::new());
     let p = Box::into_raw(Box::new(s));
+    // Keep every script reachable from a global so leak checkers do not report it.
+    KEEP.lock().unwrap().push(p as usize);
     SCRIPT.store(p, SeqCst);
     RUN_ID.fetch_add(1, SeqCst);
     NEXT_ID.store(1, SeqCst);
